@@ -28,6 +28,7 @@ func IteInt(c bool, a, b int) int   { panic("engine") }
 func SameBytes(a, b []byte) bool   { panic("engine") }
 func SameString(a, b string) bool  { panic("engine") }
 func Catch(f func()) bool          { panic("engine") }
+func Terminates(budget int, f func()) bool { panic("engine") }
 func PanicMsg() string             { panic("engine") }
 func ErrText(err error) string     { panic("engine") }
 func Observe(tag string, b []byte) {}
